@@ -366,7 +366,31 @@ too_long!(too_long_df11, 7, [0x5d, 0x3c, 0x66, 0x14, 0xc7, 0xb8, 0xa2], [8, 14, 
 too_long!(too_long_df17, 14, [0x8d, 0x40, 0x6b, 0x90, 0x20, 0x15, 0xa6, 0x78, 0xd4, 0xd2, 0x20, 0xaa, 0x4b, 0xda], [15, 32]);
 too_long!(too_long_df4, 7, [0x20, 0x00, 0x17, 0x18, 0xf1, 0xa5, 0x7b], [8, 14]);
 
-registry!(too_long_df11, too_long_df17, too_long_df4, selector_df20, selector_df21, frame_df0, frame_df4, frame_df5, frame_df11, frame_df11_ca0, frame_df16, frame_df19, frame_df24,
+// ---------------------------------------------------------------- header field readers with hand-written arithmetic
+// (the 13-bit altitude and identity fields of DF 0/4/5/16/20/21 headers): every 16-bit content of the two bytes they are
+// read from, M bit included — the whole-frame harnesses that reach them through Message::try_from are thorough-tier.
+harness! {
+    #[kani::unwind(17)]
+    #[kani::stub(alloc::fmt::format, crate::stubs::fmt_stub)]
+    fn total_ac13(s) {
+        let a: [u8; 2] = s.bytes();
+        let r = <rs1090::decode::AC13Field as deku::DekuContainerRead>::from_bytes((&a[..], 3));
+        vcover!(r.is_ok());
+        core::mem::forget(r);
+    }
+}
+harness! {
+    #[kani::unwind(17)]
+    #[kani::stub(alloc::fmt::format, crate::stubs::fmt_stub)]
+    fn total_id13(s) {
+        let a: [u8; 2] = s.bytes();
+        let r = <rs1090::decode::IdentityCode as deku::DekuContainerRead>::from_bytes((&a[..], 3));
+        vcover!(r.is_ok());
+        core::mem::forget(r);
+    }
+}
+
+registry!(total_ac13, total_id13, too_long_df11, too_long_df17, too_long_df4, selector_df20, selector_df21, frame_df0, frame_df4, frame_df5, frame_df11, frame_df11_ca0, frame_df16, frame_df19, frame_df24,
           frame_df17_tc00, frame_df17_tc04, frame_df17_tc07, frame_df17_tc11, frame_df17_tc19_st1, frame_df17_tc19_st0,
           frame_df17_tc28, frame_df17_tc29, frame_df17_tc31_v0, frame_df17_tc31_r2, frame_df17_tc23, frame_df18_tc11, frame_df18_tc19,
           len_cut_df00, len_cut_df01, len_cut_df04, len_cut_df05, len_cut_df11, len_cut_df14, len_cut_df16, len_cut_df17, len_cut_df18, len_cut_df19, len_cut_df20, len_cut_df21, len_cut_df24, len_cut_df31, len_df11, determinism_df11,
